@@ -16,7 +16,12 @@ func Target(t *rapid.T, o assetgen.Opts, bundledPct int, bundled []string) env.T
 	if len(bundled) == 0 {
 		bundled = env.BundledAssets
 	}
-	if rapid.IntRange(0, 99).Draw(t, "bundled?") < bundledPct {
+	// a weighted coin built from SampledFrom: rapid's IntRange is biased towards small values
+	coin := make([]bool, 20)
+	for i := range coin {
+		coin[i] = (i*7%20)*5 < bundledPct // spread evenly over the indices
+	}
+	if rapid.SampledFrom(coin).Draw(t, "bundled?") {
 		return env.Target{Asset: rapid.SampledFrom(bundled).Draw(t, "asset")}
 	}
 	l := assetgen.Gen(t, o)
